@@ -22,6 +22,13 @@ Remaining == Len(buf)                   \* RemainingBytes = the buffer's unread 
 \* generic transport: readable = the wrapped object's ReadableLen() (or -1 if it has no such method)
 GenericRemaining(readable) == IF readable > 0 THEN readable ELSE -1     \* -1 stands for "unknown" (max uint64)
 
+\* ... and when the wrapped object's answer changes from one call to the next (a live connection): whatever the
+\* transport asked and however often, it reports a POSITIVE length the object actually exposed, or "unknown";
+\* "unknown" needs a reason (some answer was not positive, or the object was never asked)
+GenericRemainingLive(answers, rem) ==
+  \/ rem > 0 /\ \E i \in 1 .. Len(answers) : answers[i] = rem
+  \/ rem = -1 /\ (answers = <<>> \/ \E i \in 1 .. Len(answers) : answers[i] <= 0)
+
 \* callback registry: a registered callback receives exactly the arguments and its result is returned;
 \* an unregistered one yields the specific error
 RegistryResult(registered, cbret) == IF registered THEN cbret ELSE "notregistered"
